@@ -442,3 +442,8 @@ def kwarg(call: ast.Call, name: str) -> Optional[ast.AST]:
 
 def loc(module: ModuleInfo, node: ast.AST) -> str:
     return f"{module.relpath}:{getattr(node, 'lineno', 0)}"
+
+
+def full(node: ast.AST) -> str:
+    """whole normalised text of a node, compound statements included"""
+    return " ".join(ast.unparse(node).split())
